@@ -270,13 +270,21 @@ def table_check(tier, rep_counts, p1s):
         pats = patterns(1 if tier == "quick" else 2) + (["/a/:p", "/:p/a", "/a.b/:r+", "/a/:r*"] if tier == "quick" else [])
         pths = paths(3)
         for p1, p2 in itertools.product(p1s, pats):
-            for methods, calls in ((("GET", "GET"), 1), (("GET", "POST"), 1), (("GET", "GET"), 2), (("GET", "GET"), "resource")):
+            for methods, calls in ((("GET", "GET"), 1), (("GET", "POST"), 1), (("GET", "GET"), 2), (("GET", "GET"), "resource"), (("GET", "GET"), "ws"), (("GET", "GET"), "ws-first")):
                 router = Router()
                 hit = []
                 r1 = Route("r1", methods[0], p1, lambda req: (hit.append((1, dict(req.matches))), Response(b"1", 201))[1])
                 r2 = Route("r2", methods[1], p2, lambda req: (hit.append((2, dict(req.matches))), Response(b"2", 202))[1])
                 r2.options = {}
-                if calls == "resource":
+                if calls in ("ws", "ws-first"):
+                    # a websocket route next to a plain route of the same method: registration order decides as for any
+                    # two routes (a GET without upgrade headers that is given to the websocket route is answered 400)
+                    if calls == "ws":
+                        r2 = Route("r2", "GET", p2, r2.callback, websocket=True)
+                    else:
+                        r1 = Route("r1", "GET", p1, r1.callback, websocket=True)
+                    router.registerRoutes([r1, r2])
+                elif calls == "resource":
                     # the documented way: a Resource subclass with decorated methods, declared in this order under
                     # names that do NOT sort in declaration order; its routes() are registered
                     router.registerRoutes(_resource(methods, p1, p2, hit, Response).routes())
@@ -304,10 +312,16 @@ def table_check(tier, rep_counts, p1s):
                             expect = 202
                         else:
                             expect = 404
+                        if calls == "ws" and expect == 202 or calls == "ws-first" and expect == 201:
+                            expect = 400    # chosen route is the websocket endpoint, the request carries no upgrade header
                         if resp.status_code != expect:
-                            key = ("dispatch", "dispatch status %s, documented %s (%s%s)" % (resp.status_code, expect, "first-match/method" if expect != 404 else "must be 404", ", routes registered by two registerRoutes calls" if calls == 2 else (", routes declared in a Resource subclass" if calls == "resource" else "")))
+                            key = ("dispatch", "dispatch status %s, documented %s (%s%s)" % (resp.status_code, expect, "first-match/method" if expect != 404 else "must be 404", ", routes registered by two registerRoutes calls" if calls == 2 else (", routes declared in a Resource subclass" if calls == "resource" else (", a websocket route and a plain route" if calls in ("ws", "ws-first") else ""))))
                             viols.setdefault(key, [0, {"p1": p1, "p2": p2, "methods": methods, "method": method, "path": path},
                                                    "table [%s %r, %s %r] request %s %r -> %s, expected %s" % (methods[0], p1, methods[1], p2, method, path, resp.status_code, expect)])[0] += 1
+                        elif expect == 400:
+                            if hit:
+                                key = ("dispatch", "a handler runs although the request was given to the websocket route without an upgrade")
+                                viols.setdefault(key, [0, {"p1": p1, "p2": p2, "methods": methods, "method": method, "path": path}, "hit %r" % (hit,)])[0] += 1
                         elif expect != 404:
                             # the handler of the chosen route sees ITS parameters bound, under its own names
                             binds = b1 if expect == 201 else b2
